@@ -69,6 +69,12 @@ CHECKS = {
    design_ref="DESIGN.md section 6 C09",
    note=COMMON_NOTE + "Hand-modelled: Model/Priv.v. A private key is identified with its public key token; the HPKE probe in the harness is what ties tokens to real key pairs.",
    technique="Coq proof (PrivOK invariant) + per-member key-position correspondence + HPKE seal/open probes"),
+ "C11": dict(
+   category="proof",
+   text="Coq theorems (Props/C11.v) over a state machine of the commit life cycle of a member (build, build detached, clear, apply pending, apply detached, receive own / foreign commit, re-init) on the list of applied commits: building keeps the epoch; a second pending commit is refused and changes nothing; clear restores the ability to commit; every operation appends at most one commit (epoch +0/+1, never back); an error changes nothing; the pending commit always belongs to the current history (invariant over every operation sequence); applying the pending commit = receiving it on the same history; a foreign commit discards the pending one; commits are accepted only in their epoch; a stale detached commit is refused and one built on a prefix of the history is applied only on exactly that history; after a re-init nothing more is accepted. Tie: random races of three members on the library against the same operation list run through the model in Coq: result class, epoch, pending flag of every operation; same model history <=> same context / authenticator / tree.",
+   design_ref="DESIGN.md section 6 C11",
+   note=COMMON_NOTE + "Hand-modelled: Model/Pending.v. Idealisation: a commit built on another history of equal length fails authentication. Defect F6 (stale detached commit applied) found and repaired (fix: e60fc971).",
+   technique="Coq proof over life-cycle state machine + race correspondence"),
 }
 NOT_YET = {}
 props = [json.loads(l) for l in open(os.path.join(V, "properties.jsonl"))]
